@@ -87,9 +87,21 @@ extern "C" void __asan_on_error()
    emitCulprit("asan-in-call");
 }
 #else
+static volatile long long g_case = -1;
 static void onSignal(int sig)
 {
    emitCulprit("signal-in-call");
+   const char* f = g_curfn;
+   if(f)
+   {
+      char buf[320];
+      int n = snprintf(buf, sizeof buf, "{\"ev\":\"viol\",\"case\":%lld,\"key\":\"C20:%s:crash-in-call\",\"detail\":\"signal %d raised inside the C call\"}\n", (long long)g_case, f, sig);
+      if(n > 0)
+      {
+         ssize_t w = write(1, buf, (size_t)n);
+         (void)w;
+      }
+   }
    signal(sig, SIG_DFL);
    raise(sig);
 }
@@ -230,11 +242,12 @@ static BlockInfo blockInfo(const void* p)
 static const int PADN = 4;
 static int padOutputs(Rng& g)     // number of canary elements on each side of an output array (0: exact block)
 {
+   bool padded = g.chance(0.5);        // drawn in every flavour: case k is the same history everywhere
 #if VL_ASAN
-   return g.chance(0.5) ? PADN : 0;    // exact block: ASan red zone right behind the contract length; padded: canaries
+   return padded ? PADN : 0;           // exact block: ASan red zone right behind the contract length; padded: canaries
 #else
-   (void)g;
-   return PADN;             // no red zones in this flavour: always canaries
+   (void)padded;
+   return PADN;                        // no red zones in this flavour: always canaries
 #endif
 }
 // input array: heap block of exactly n elements
@@ -546,6 +559,14 @@ static void post(Ctx& c, Fn f)
 {
    g_track = -1;
    if(c.dead || c.H == nullptr) return;
+   // Guard: a real LP flagged as scaled without a scaler object (left behind by exact solves with a scaler, a defect of
+   // the C++ library itself) makes the unscaling C++ accessors undefined; such a history ends here without a verdict.
+   if((c.M->_realLP->isScaled() && c.M->_realLP->lp_scaler == nullptr) || (c.h()._realLP->isScaled() && c.h()._realLP->lp_scaler == nullptr))
+   {
+      sink().count("guard.scaled_without_scaler");
+      c.dead = true;
+      return;
+   }
    sink().count("oracle.twin_compared");
    std::string d = diffSoPlex(c.h(), *c.M);
    if(!d.empty())
@@ -1305,6 +1326,12 @@ static bool opOptimize(Ctx& c)
 {
    // manual sync mode: an exact solve requires synchronised LPs and the C interface has no sync call -> real solves only
    if(c.M->intParam(SoPlex::SYNCMODE) == SoPlex::SYNCMODE_MANUAL && rationalSolveSelected(c)) return false;
+   // exact solves are run with the scaler off (see the guard in post())
+   if(rationalSolveSelected(c) && c.M->intParam(SoPlex::SCALER) != SoPlex::SCALER_OFF)
+   {
+      opSetIntParam(c, SoPlex::SCALER, SoPlex::SCALER_OFF);
+      if(c.dead) return true;
+   }
    int st;
    {
       Call _(c, F_optimize);
@@ -2179,6 +2206,9 @@ static void runCase(long long k, Rng& g)
 {
    Sink& S = sink();
    Ctx c(g, k);
+#if !VL_ASAN
+   g_case = k;
+#endif
    int sel = (int)(k % 16);
    std::string desc;
    if(sel == 7)
